@@ -28,8 +28,29 @@ enum Entry {
     FromReader,
     WithDeserializer,
     ReadIter,
+    /// the garde / validator twins (separate copies of the code; target `Rec` only)
+    FromReaderValid,
+    ReadValid,
+    FromReaderValidate,
+    ReadValidate,
 }
 const ENTRIES: [Entry; 3] = [Entry::FromReader, Entry::WithDeserializer, Entry::ReadIter];
+const TWINS: [Entry; 4] = [Entry::FromReaderValid, Entry::ReadValid, Entry::FromReaderValidate, Entry::ReadValidate];
+impl Entry {
+    fn is_iter(self) -> bool {
+        matches!(self, Entry::ReadIter | Entry::ReadValid | Entry::ReadValidate)
+    }
+    fn is_twin(self) -> bool {
+        TWINS.contains(&self)
+    }
+    fn for_target(t: Target) -> Vec<Entry> {
+        let mut v = ENTRIES.to_vec();
+        if t == Target::Rec {
+            v.extend(TWINS);
+        }
+        v
+    }
+}
 
 #[derive(Clone, Copy, Debug, Serialize, Deserialize, PartialEq, Eq, Hash)]
 enum Target {
@@ -56,7 +77,8 @@ enum Case {
     Write { val: V, opts: SerOpts, with_options: bool, short: usize, fault: WriteFault },
 }
 
-#[derive(Debug, Deserialize, PartialEq)]
+#[derive(Debug, Deserialize, PartialEq, garde::Validate, validator::Validate)]
+#[garde(allow_unvalidated)]
 #[allow(dead_code)]
 struct Rec {
     a: i64,
@@ -213,6 +235,7 @@ enum Res {
     Panic(String),
 }
 impl Res {
+    #[allow(dead_code)]
     fn is_err_result(&self) -> bool {
         matches!(self, Res::One(Err(_)))
     }
@@ -245,11 +268,40 @@ fn cap_options(cap: Option<usize>) -> serde_saphyr::Options {
 
 /// `cap`: None = the plain entry point (`from_reader`, `with_deserializer_from_reader`,
 /// `read`); Some(c) = the `_with_options` twin with `max_reader_input_bytes = c`.
+fn collect<T: std::fmt::Debug>(it: &mut dyn Iterator<Item = Result<T, serde_saphyr::Error>>, max_items: usize) -> Res {
+    let mut items = vec![];
+    let mut runaway = false;
+    while let Some(x) = it.next() {
+        items.push(item(x));
+        if items.len() > max_items {
+            runaway = true;
+            break;
+        }
+    }
+    Res::Many { items, runaway }
+}
+
+/// the validating twins exist for `Rec` only
+fn run_twin(entry: Entry, rd: &mut FaultyReader, cap: Option<Option<usize>>, max_items: usize) -> Res {
+    match (entry, cap) {
+        (Entry::FromReaderValid, None) => Res::One(item(serde_saphyr::from_reader_valid::<_, Rec>(&mut *rd))),
+        (Entry::FromReaderValid, Some(c)) => Res::One(item(serde_saphyr::from_reader_with_options_valid::<_, Rec>(&mut *rd, cap_options(c)))),
+        (Entry::FromReaderValidate, None) => Res::One(item(serde_saphyr::from_reader_validate::<_, Rec>(&mut *rd))),
+        (Entry::FromReaderValidate, Some(c)) => Res::One(item(serde_saphyr::from_reader_with_options_validate::<_, Rec>(&mut *rd, cap_options(c)))),
+        (Entry::ReadValid, None) => collect(&mut serde_saphyr::read_valid::<_, Rec>(rd), max_items),
+        (Entry::ReadValid, Some(c)) => collect(&mut serde_saphyr::read_with_options_valid::<_, Rec>(rd, cap_options(c)), max_items),
+        (Entry::ReadValidate, None) => collect(&mut serde_saphyr::read_validate::<_, Rec>(rd), max_items),
+        (Entry::ReadValidate, Some(c)) => collect(&mut serde_saphyr::read_with_options_validate::<_, Rec>(rd, cap_options(c)), max_items),
+        _ => unreachable!(),
+    }
+}
+
 fn run_typed<T: DeserializeOwned + std::fmt::Debug>(
     entry: Entry,
     rd: &mut FaultyReader,
     cap: Option<Option<usize>>,
     max_items: usize,
+    twin_hook: fn(Entry, &mut FaultyReader, Option<Option<usize>>, usize) -> Res,
 ) -> Res {
     let r = engine::catch(|| match entry {
         Entry::FromReader => Res::One(item(match cap {
@@ -276,6 +328,7 @@ fn run_typed<T: DeserializeOwned + std::fmt::Debug>(
             }
             Res::Many { items, runaway }
         }
+        twin => twin_hook(twin, rd, cap, max_items),
     });
     match r {
         Caught::Ok(r) => r,
@@ -292,12 +345,15 @@ fn run_typed<T: DeserializeOwned + std::fmt::Debug>(
 }
 
 fn run(target: Target, entry: Entry, rd: &mut FaultyReader, cap: Option<Option<usize>>, max_items: usize) -> (Res, Stats) {
+    fn no_twin(_: Entry, _: &mut FaultyReader, _: Option<Option<usize>>, _: usize) -> Res {
+        panic!("validating twins are only run with target Rec")
+    }
     let res = match target {
-        Target::U => run_typed::<U>(entry, rd, cap, max_items),
-        Target::Rec => run_typed::<Rec>(entry, rd, cap, max_items),
-        Target::VecI => run_typed::<Vec<i64>>(entry, rd, cap, max_items),
-        Target::Str => run_typed::<String>(entry, rd, cap, max_items),
-        Target::MapSS => run_typed::<BTreeMap<String, String>>(entry, rd, cap, max_items),
+        Target::U => run_typed::<U>(entry, rd, cap, max_items, no_twin),
+        Target::Rec => run_typed::<Rec>(entry, rd, cap, max_items, run_twin),
+        Target::VecI => run_typed::<Vec<i64>>(entry, rd, cap, max_items, no_twin),
+        Target::Str => run_typed::<String>(entry, rd, cap, max_items, no_twin),
+        Target::MapSS => run_typed::<BTreeMap<String, String>>(entry, rd, cap, max_items, no_twin),
     };
     let st = Stats {
         calls: rd.calls,
@@ -709,39 +765,93 @@ fn marker_lines(prefix: &str) -> usize {
 
 struct C10;
 
+/// Texts the parser may have received when the error / cap breach / early end strikes, for the
+/// iterator entry point (empty list: no such event in this case).
+fn seen_prefixes(c: &Case) -> Vec<String> {
+    fn aligned(doc: &str, mut k: usize) -> &str {
+        k = k.min(doc.len());
+        while !doc.is_char_boundary(k) {
+            k -= 1;
+        }
+        &doc[..k]
+    }
+    match c {
+        Case::Read { doc, fault, .. } => match fault.at {
+            FaultAt::Byte(k) => {
+                let mut v = vec![aligned(doc, k).to_string()];
+                if k < 3 {
+                    // an error during the decoder's 3-byte BOM probe loses the probed bytes
+                    v.push(String::new());
+                }
+                v
+            }
+            // the position of a call-indexed fault depends on the library's buffer sizes: take
+            // it from the fault-free run of the same entry point (deterministic up to the fault)
+            FaultAt::Call(n) => {
+                let Case::Read { target, entry, sched, .. } = c else { unreachable!() };
+                if iofault::percent_tail(doc.as_bytes()) {
+                    return vec![];
+                }
+                let (_, st, pos) = clean(doc.as_bytes(), *target, *entry, sched);
+                match delivered_prefix_len(doc, fault, &pos, st.calls) {
+                    Some(k) => {
+                        let mut v = vec![aligned(doc, k).to_string()];
+                        if k < 3 {
+                            v.push(String::new());
+                        }
+                        v
+                    }
+                    None => vec![],
+                }
+            }
+        },
+        Case::MidChar { doc, cut, .. } => vec![aligned(doc, *cut).to_string()],
+        Case::Cap { doc, cap, .. } => {
+            let body = doc.strip_prefix('\u{FEFF}').unwrap_or(doc);
+            if *cap < body.len() { vec![aligned(body, *cap).to_string()] } else { vec![] }
+        }
+        Case::Endless { head, unit, cap, .. } => {
+            let mut t = head.strip_prefix('\u{FEFF}').unwrap_or(head).to_string();
+            while t.len() <= *cap && !unit.is_empty() {
+                t.push_str(unit);
+            }
+            vec![aligned(&t, *cap).to_string()]
+        }
+        Case::Write { .. } => vec![],
+    }
+}
+
 fn case_signatures(c: &Case) -> Vec<&'static str> {
     let mut v = vec![];
-    match c {
-        Case::Read { doc, entry, fault, .. } => {
-            // (i) ChunkedChars reads the first byte of a character with read_exact and takes
-            // UnexpectedEof for the end of input
-            if fault.kind == Kind::UnexpectedEof {
-                v.push("reader_unexpected_eof_kind");
-            }
-            if *entry == Entry::ReadIter {
-                // the delivered prefix is only known for byte faults; call faults: any prefix
-                let prefixes: Vec<&str> = match fault.at {
-                    FaultAt::Byte(k) => {
-                        let mut k = k.min(doc.len());
-                        while !doc.is_char_boundary(k) {
-                            k -= 1;
-                        }
-                        vec![&doc[..k]]
-                    }
-                    FaultAt::Call(_) => (0..=doc.len()).filter(|&k| doc.is_char_boundary(k)).map(|k| &doc[..k]).collect(),
-                };
-                // (ii) the error arrives while the iterator is skipping a null-like document
-                if prefixes.iter().any(|p| nullish_text(&last_document(p))) {
-                    v.push("iter_error_while_skipping_null");
-                }
-                // (iii) the iterator resynchronises after an I/O error: needs a document
-                // boundary in what was delivered
-                if prefixes.iter().any(|p| marker_lines(p) > 0) {
-                    v.push("iter_resync_after_io_error");
-                }
-            }
+    let entry = match c {
+        Case::Read { entry, .. } | Case::MidChar { entry, .. } | Case::Cap { entry, .. } | Case::Endless { entry, .. } => *entry,
+        Case::Write { .. } => return v,
+    };
+    if let Case::Read { fault, .. } = c {
+        // (i) ChunkedChars reads the first byte of a character with read_exact and takes
+        // UnexpectedEof for the end of input
+        if fault.kind == Kind::UnexpectedEof {
+            v.push("reader_unexpected_eof_kind");
         }
-        Case::MidChar { .. } | Case::Cap { .. } | Case::Endless { .. } | Case::Write { .. } => {}
+    }
+    if let Case::MidChar { doc, .. } = c {
+        // (iv) behind a BOM the decoder transcodes lossily: a character cut short by the end of
+        // input becomes U+FFFD instead of an error
+        if doc.starts_with('\u{FEFF}') {
+            v.push("bom_truncated_char_replaced");
+        }
+    }
+    if entry.is_iter() {
+        let prefixes = seen_prefixes(c);
+        // (ii) the error arrives while the iterator is skipping a null-like / empty document
+        if prefixes.iter().any(|p| nullish_text(&last_document(p))) {
+            v.push("iter_error_while_skipping_null");
+        }
+        // (iii) the iterator resynchronises after an I/O error: needs a document boundary in
+        // what was delivered
+        if prefixes.iter().any(|p| marker_lines(p) > 0) {
+            v.push("iter_resync_after_io_error");
+        }
     }
     v
 }
@@ -837,6 +947,36 @@ fn documents() -> Vec<(String, Vec<Target>)> {
     add("x: \u{85}y\n", &[U]);
     add("a: \u{2028}b\n", &[U]);
     d
+}
+
+/// All sequences of 1..=3 lines (quick: 1..=2 plus a third of the triples) over a small line
+/// alphabet: valid and invalid documents, streams, null-like documents, multi-byte text.
+fn generated_documents(thorough: bool) -> Vec<(String, Vec<Target>)> {
+    const LINES: [&str; 12] = ["a: 1\n", "b: 2\n", "- x\n", "k:\n  n: 2\n", "---\n", "...\n", "# c\n", "é: ü\n", "~\n", "x\n", "[1, 2]\n", "\n"];
+    let mut out = vec![];
+    let mut push = |s: String, i: usize| {
+        let targets = if s.starts_with("a: 1\n") || s.contains("\na: 1\n") { vec![Target::U, Target::Rec] } else { vec![Target::U] };
+        // every other document loses its final line break
+        let s = if i % 2 == 1 { s.trim_end_matches('\n').to_string() } else { s };
+        out.push((s, targets));
+    };
+    let n = LINES.len();
+    let mut i = 0;
+    for a in 0..n {
+        push(LINES[a].to_string(), i);
+        i += 1;
+        for b in 0..n {
+            push(format!("{}{}", LINES[a], LINES[b]), i);
+            i += 1;
+            for c in 0..n {
+                i += 1;
+                if thorough || (a + 2 * b + 3 * c) % 3 == 0 {
+                    push(format!("{}{}{}", LINES[a], LINES[b], LINES[c]), i);
+                }
+            }
+        }
+    }
+    out
 }
 
 /// A document larger than the 8 KiB buffers in front of the parser (faults are placed on a
@@ -1108,6 +1248,13 @@ impl Property for C10 {
     fn check(c: &Case) -> Outcome {
         set_info(Info::default());
         match c {
+            Case::Read { target, entry, .. } | Case::MidChar { target, entry, .. } | Case::Cap { target, entry, .. } if entry.is_twin() && *target != Target::Rec => {
+                return Outcome::Discard("validating twins are only run with target Rec");
+            }
+            Case::Endless { entry, .. } if entry.is_twin() => return Outcome::Discard("validating twins are only run with target Rec"),
+            _ => {}
+        }
+        match c {
             Case::Read { doc, target, entry, sched, fault } => check_read(doc, *target, *entry, sched, fault),
             Case::MidChar { doc, cut, target, entry, sched } => check_midchar(doc, *cut, *target, *entry, sched),
             Case::Cap { doc, cap, target, entry, sched } => check_cap(doc, *cap, *target, *entry, sched),
@@ -1176,37 +1323,51 @@ impl Property for C10 {
         let mut idx: u64 = 0;
 
         // ---- reader faults: every position ------------------------------------------------
+        // crafted documents: full product; enumerated line documents: every position and entry
+        // point, the other dimensions rotate
         let mut n_positions = 0u64;
-        for (doc, targets) in &docs {
+        let gen_docs = generated_documents(thorough);
+        let all_docs = docs.iter().map(|d| (d, true)).chain(gen_docs.iter().map(|d| (d, false)));
+        for (di, ((doc, targets), full)) in all_docs.enumerate() {
             let len = doc.len();
+            if iofault::percent_tail(doc.as_bytes()) {
+                continue;
+            }
+            let sub = if full { "read-fault-sweep" } else { "read-fault-sweep-enumerated-docs" };
             for &target in targets {
-                for &entry in &ENTRIES {
+                for &entry in &Entry::for_target(target) {
                     // complete-prefix table for this (doc, target, entry)
                     let complete: Vec<bool> = (0..=len).map(|k| prefix_complete(doc, k, target, entry)).collect();
-                    for sched in &scheds {
-                        let (_, st, pos_at_call) = if iofault::percent_tail(doc.as_bytes()) {
+                    for (si, sched) in scheds.iter().enumerate() {
+                        if !full && !thorough && si != di % 3 {
                             continue;
-                        } else {
-                            clean(doc.as_bytes(), target, entry, sched)
-                        };
+                        }
+                        let (_, st, pos_at_call) = clean(doc.as_bytes(), target, entry, sched);
                         let mut plans: Vec<(FaultAt, bool)> = vec![];
                         for k in 0..=len {
                             plans.push((FaultAt::Byte(k), complete[k]));
                         }
-                        for n in 0..=st.calls {
-                            let nt = pos_at_call.get(n).map(|&p| n < st.calls && complete[p.min(len)]).unwrap_or(false);
+                        // calls up to the one that reports the end of input can fail; one later
+                        // call index stands for "never invoked"
+                        let eof_call = pos_at_call.iter().position(|&p| p >= len).unwrap_or(st.calls);
+                        for n in 0..=eof_call + 1 {
+                            let nt = n <= eof_call && pos_at_call.get(n).map(|&p| complete[p.min(len)]).unwrap_or(false);
                             plans.push((FaultAt::Call(n), nt));
                         }
-                        for (at, nt) in plans {
+                        for (pi, (at, nt)) in plans.into_iter().enumerate() {
                             n_positions += 1;
-                            for &kind in &Kind::ALL {
-                                for &after in &afters {
+                            for (ki, &kind) in Kind::ALL.iter().enumerate() {
+                                for (ai, &after) in afters.iter().enumerate() {
+                                    if !full && (ki != (di + pi) % 5 || ai != (di / 5 + pi) % 2) {
+                                        // (UnexpectedEof is an open finding; it is covered by the crafted documents)
+                                        continue;
+                                    }
                                     idx += 1;
                                     if !ctx.mine(idx) {
                                         continue;
                                     }
                                     let c = Case::Read { doc: doc.clone(), target, entry, sched: sched.clone(), fault: ReadFault { at, kind, after } };
-                                    Self::submit(ctx, "read-fault-sweep", &c, nt);
+                                    Self::submit(ctx, sub, &c, nt);
                                 }
                             }
                         }
@@ -1215,7 +1376,7 @@ impl Property for C10 {
             }
         }
         ctx.subspace(
-            "reader fault plans: documents x targets x 3 entry points x 3 chunkings x every byte / call position (each x 6 kinds x 2 post-fault behaviours)",
+            "reader fault positions: (crafted documents x 3 chunkings + enumerated line documents) x targets x entry points x every byte / call position",
             n_positions,
             true,
         );
@@ -1261,7 +1422,7 @@ impl Property for C10 {
                 }
                 n_mid += 1;
                 for &target in targets {
-                    for &entry in &ENTRIES {
+                    for &entry in &Entry::for_target(target) {
                         for sched in &scheds {
                             idx += 1;
                             if !ctx.mine(idx) {
@@ -1294,7 +1455,7 @@ impl Property for C10 {
             caps.sort();
             caps.dedup();
             for &target in targets {
-                for &entry in &ENTRIES {
+                for &entry in &Entry::for_target(target) {
                     for sched in &scheds {
                         for &cap in &caps {
                             idx += 1;
@@ -1416,6 +1577,22 @@ fn main() {
             for sched in [Sched::All, Sched::Fixed(1)] {
                 let (r, st, _) = clean(text.as_bytes(), Target::U, entry, &sched);
                 println!("{entry:?} {sched:?}: {} calls={} handed={}", show(&r), st.calls, st.handed);
+            }
+        }
+        return;
+    }
+    if args.get(1).map(|s| s.as_str()) == Some("probe-fault") {
+        // c10 probe-fault <text> : every byte fault position, iterator entry point
+        engine::install_panic_hook();
+        let text = args[2].replace("\\n", "\n").replace("\\r", "\r");
+        let kind = if args.get(3).map(|s| s.as_str()) == Some("eof") { Kind::UnexpectedEof } else { Kind::Other };
+        for entry in ENTRIES {
+            for sched in [Sched::All, Sched::Fixed(1)] {
+                for k in 0..=text.len() {
+                    let mut rd = FaultyReader::new(text.as_bytes(), &sched).with_fault(ReadFault { at: FaultAt::Byte(k), kind, after: After::Sticky });
+                    let (r, st) = run(Target::U, entry, &mut rd, None, 100);
+                    println!("{entry:?} {sched:?} k={k} {:?}: {} hits={}", &text[..k], show(&r), st.fault_hits);
+                }
             }
         }
         return;
